@@ -82,6 +82,10 @@ def generate(rng, tier, ctx):
         a, b = rng.choice(edges), rng.choice(edges)
         cases.append(('fe_prog L%s L%s M D S X i g' % (h32(a), h32(b)), ('fe_edge', 'mul')))
         cases.append(('fe_prog l%s r q z' % h32(a), ('fe_edge', 'sqrt')))
+    # the extreme element of every magnitude (secp256k1_fe_get_bounds) through every normalisation / zero test / negation
+    for m in range(0, 33):
+        for prog in ('F g', 'V g', 'W F g', 'z', 'y', 'D F X V e') + (('N%d F g' % m, 'H F g') if m <= 31 else ()) + (('D A F g',) if 2 * m <= 32 else ()):
+            cases.append(('fe_prog B%d %s' % (m, prog), ('fe_bounds', 'mag%d' % m)))
     # --- scalars
     subops = ['add', 'mul', 'neg', 'inv', 'invvar', 'half', 'ishigh', 'iszero', 'iseven', 'eq', 'condneg', 'cmov', 'seckey',
               'caddbit', 'sqr', 'split128', 'bits', 'mulshift', 'lambda']
